@@ -260,7 +260,9 @@ class CallSpec:
         try:
             return self._h(eng, st, args, kw, node, exits)
         finally:
-            eng.assumed_facts = getattr(eng, "assumed_facts", 0) + max(0, len(st.pc) - n0)
+            # facts of a handler that pyvc/conform.py discharges against the callee's proved contract are consequences, not assumptions
+            attr = "derived_facts" if getattr(self._h, "checked_against_callee", False) else "assumed_facts"
+            setattr(eng, attr, getattr(eng, attr, 0) + max(0, len(st.pc) - n0))
             eng.callsite_obligations = getattr(eng, "callsite_obligations", 0) + max(0, len(eng.vcs) - v0)
             eng.callsite_uses = getattr(eng, "callsite_uses", 0) + 1
 
